@@ -289,11 +289,17 @@ fn event(op: &Op) -> Option<KeyEvent> {
     }
 }
 
-/// the snapshot with the pending-flush level blanked (the one field a reset carries over; it is 0 after every key)
-fn mask_dirty(snap: &str) -> String {
+/// the snapshot with the pending-flush level (the one field a reset carries over; it is 0 after every key)
+/// and / or the estimator clock blanked
+fn mask_meta(snap: &str, dirty: bool, clock: bool) -> String {
     let sec = sections(snap);
     let mut m: Vec<String> = misc(snap).iter().map(|x| x.to_string()).collect();
-    m[1] = "_".into();
+    if dirty {
+        m[1] = "_".into();
+    }
+    if clock {
+        m[5] = "_".into();
+    }
     let mut parts: Vec<String> = sec[..5].iter().map(|x| x.to_string()).collect();
     parts.push(m.join(" "));
     parts.join(" ; ")
@@ -310,6 +316,8 @@ struct PairStats {
     r_nth_nonzero: u64,
     r_user_entries: u64,
     r_dirty: u64,
+    r_other_clock: u64,
+    r_learned: u64,
     p_sessions: u64,
     p_ops: u64,
     p_other_ops: u64,
@@ -322,8 +330,23 @@ fn observe(s: &Session) -> (String, String) {
     (s.ed.verif_snapshot(), s.dict_s())
 }
 
+/// the user dictionary without the time stamps (what remains comparable when the clocks differ)
+fn user_dict_no_time(s: &Session) -> String {
+    // SAFETY: see Session::dict_s
+    let (btree, grave, _, _, _) = unsafe { (*s.user).verif_snapshot() };
+    let mut o = String::new();
+    for (k, p, f, _t) in &btree {
+        let _ = write!(o, "{} {} {} ; ", syls_s(k), hx(p), f);
+    }
+    o.push_str("| ");
+    for (k, p) in &grave {
+        let _ = write!(o, "{} {} ; ", syls_s(k), hx(p));
+    }
+    o
+}
+
 /// compare two sessions that must be indistinguishable
-fn same(out: &mut Out, what: &str, a: &Session, b: &Session, ra: &Result<String, ()>, rb: &Result<String, ()>, masked: bool, full: bool, hist: &str) -> bool {
+fn same(out: &mut Out, what: &str, a: &Session, b: &Session, ra: &Result<String, ()>, rb: &Result<String, ()>, mask: (bool, bool), full: bool, hist: &str) -> bool {
     if ra != rb {
         out.oracle_fail("C17", "new", &format!("{}: return values differ ({:?} vs {:?}): {}", what, ra, rb, hist));
         return false;
@@ -333,7 +356,8 @@ fn same(out: &mut Out, what: &str, a: &Session, b: &Session, ra: &Result<String,
     }
     let (sa, da) = observe(a);
     let (sb, db) = observe(b);
-    let eq = if masked { mask_dirty(&sa) == mask_dirty(&sb) } else { sa == sb };
+    let eq = mask_meta(&sa, mask.0, mask.1) == mask_meta(&sb, mask.0, mask.1);
+    let (da, db) = if mask.1 { (user_dict_no_time(a), user_dict_no_time(b)) } else { (da, db) };
     if !eq {
         out.oracle_fail("C17", "new", &format!("{}: states differ [{}] vs [{}]: {}", what, sa, sb, hist));
         return false;
@@ -388,7 +412,7 @@ fn pair_getters(out: &mut Out, rng: &mut Rng, pool: &[(Syllable, Vec<KeyCode>)],
         if full {
             ps.full_compares += 1;
         }
-        if !same(out, "with/without getters", &a, &b, &ra, &rb, false, full, &hist_s(cfg_seed, &hist)) {
+        if !same(out, "with/without getters", &a, &b, &ra, &rb, (false, false), full, &hist_s(cfg_seed, &hist)) {
             return;
         }
         if ra.is_err() {
@@ -397,7 +421,7 @@ fn pair_getters(out: &mut Out, rng: &mut Rng, pool: &[(Syllable, Vec<KeyCode>)],
         }
     }
     ps.full_compares += 1;
-    same(out, "with/without getters (end)", &a, &b, &Ok(String::new()), &Ok(String::new()), false, true, &hist_s(cfg_seed, &hist));
+    same(out, "with/without getters (end)", &a, &b, &Ok(String::new()), &Ok(String::new()), (false, false), true, &hist_s(cfg_seed, &hist));
 }
 
 /// R: reset after a random prefix vs. a newly constructed editor with the same configuration and user dictionary
@@ -464,21 +488,29 @@ fn pair_reset(out: &mut Out, rng: &mut Rng, pool: &[(Syllable, Vec<KeyCode>)], c
     if !btree.is_empty() {
         ps.r_user_entries += 1;
     }
+    let other_clock = rng.chance(1, 2);
     let engine_now: u8 = sections(&pre)[3].split(' ').next().unwrap().parse().unwrap();
     let fresh_cfg = Cfg {
         sys: cfg.sys.clone(),
         engine_kind: engine_now,
         layout_kind: a.layout_kind,
         opts: a.ed.editor_options(),
-        time: m[5].parse().unwrap(),
+        // half of the sessions: the fresh editor's clock restarts from the newest stored time, as a new C context's
+        // does (LaxUserFreqEstimate::max_from); then clocks and time stamps are left out of the comparison
+        time: if other_clock { btree.iter().map(|e| e.3).max().unwrap_or(0) } else { m[5].parse().unwrap() },
         user: (btree, grave),
     };
     let mut b = build(&fresh_cfg, true);
     let mut masked = true;
-    if !same(out, "reset vs fresh (immediately)", &a, &b, &Ok(String::new()), &Ok(String::new()), masked, true, &hist_s(cfg_seed, &hist)) {
+    if other_clock {
+        ps.r_other_clock += 1;
+    }
+    if !same(out, "reset vs fresh (immediately)", &a, &b, &Ok(String::new()), &Ok(String::new()), (masked, other_clock), true, &hist_s(cfg_seed, &hist)) {
         return;
     }
     pending.clear();
+    let dict_at_reset = user_dict_no_time(&a);
+    let mut learned = false;
     for _ in 0..n_ops {
         let op = gen_op(rng, &a, pool, &mut pending, false);
         let ev = event(&op);
@@ -486,6 +518,10 @@ fn pair_reset(out: &mut Out, rng: &mut Rng, pool: &[(Syllable, Vec<KeyCode>)], c
         let ra = apply(&mut a, &op, ev);
         let rb = apply(&mut b, &op, ev);
         ps.r_ops += 1;
+        if !learned && user_dict_no_time(&a) != dict_at_reset {
+            learned = true;
+            ps.r_learned += 1;
+        }
         if ev.is_some() {
             masked = false;
         }
@@ -493,7 +529,7 @@ fn pair_reset(out: &mut Out, rng: &mut Rng, pool: &[(Syllable, Vec<KeyCode>)], c
         if full {
             ps.full_compares += 1;
         }
-        if !same(out, "reset vs fresh", &a, &b, &ra, &rb, masked, full, &hist_s(cfg_seed, &hist)) {
+        if !same(out, if other_clock { "reset vs fresh with a restarted clock" } else { "reset vs fresh" }, &a, &b, &ra, &rb, (masked, other_clock), full, &hist_s(cfg_seed, &hist)) {
             return;
         }
         if ra.is_err() {
@@ -566,7 +602,7 @@ fn pair_contexts(out: &mut Out, rng: &mut Rng, pool: &[(Syllable, Vec<KeyCode>)]
             ps.full_compares += 1;
         }
         if !same(out, if threaded { "alone vs beside other contexts (one on a second thread)" } else { "alone vs interleaved with another context" },
-                 &a, &a2, &ra, &rb, false, full, &hist_s(cfg_seed, &hist)) {
+                 &a, &a2, &ra, &rb, (false, false), full, &hist_s(cfg_seed, &hist)) {
             break;
         }
         if ra.is_err() {
@@ -587,7 +623,7 @@ pub fn run_pairs(out: &mut Out, seed: u64, thorough: bool) {
     let n_ops: u64 = 40;
     let mut ps = PairStats {
         g_sessions: 0, g_ops: 0, g_getter_calls: 0, r_sessions: 0, r_ops: 0, r_state: [0; 4], r_saved_cursors: 0,
-        r_nth_nonzero: 0, r_user_entries: 0, r_dirty: 0, p_sessions: 0, p_ops: 0, p_other_ops: 0, p_threaded: 0,
+        r_nth_nonzero: 0, r_user_entries: 0, r_dirty: 0, r_other_clock: 0, r_learned: 0, p_sessions: 0, p_ops: 0, p_other_ops: 0, p_threaded: 0,
         panics: 0, full_compares: 0,
     };
     for i in 0..n {
@@ -612,6 +648,8 @@ pub fn run_pairs(out: &mut Out, seed: u64, thorough: bool) {
     out.stat("pairs_reset_with_nth_conversion_nonzero", ps.r_nth_nonzero);
     out.stat("pairs_reset_with_user_entries", ps.r_user_entries);
     out.stat("pairs_reset_with_pending_flush", ps.r_dirty);
+    out.stat("pairs_reset_fresh_clock_restarted", ps.r_other_clock);
+    out.stat("pairs_reset_continuations_that_changed_the_user_dictionary", ps.r_learned);
     out.stat("pairs_contexts_sessions", ps.p_sessions);
     out.stat("pairs_contexts_ops", ps.p_ops);
     out.stat("pairs_contexts_ops_of_other_contexts", ps.p_other_ops);
